@@ -22,35 +22,35 @@ open DashLive.Gen.Routes
 class `decorators`, the method's own decorators, the body's checks – behaves as the chain
 in execution order: the first guard that does not pass decides, and the state-changing
 part of the body is consulted only if every guard passes. -/
-theorem guard_chain_sound {α : Type} (row : Row) (body : View α) (ρ : Role) (r : Request) :
-    row.view body ρ r =
-      (match evalChain row.chain ρ r with
-       | .pass => body ρ r
+theorem guard_chain_sound {α : Type} (row : Row) (body : View α) (r : Request) :
+    row.view body r =
+      (match evalChain row.chain r with
+       | .pass => body r
        | .stop s => .stopped s
        | .block => .blocked) := by
   rw [view_eq_decorate_chain]
-  exact decorate_eval row.chain body ρ r
+  exact decorate_eval row.chain body r
 
 /-- If any guard of the row denies, the body does not run: the outcome is the same for
 every body and is never a `ran`. -/
-theorem guard_denies_body_not_run {α : Type} (row : Row) (ρ : Role) (r : Request)
-    (h : ∃ g ∈ row.chain, guardVerdict g ρ r ≠ .pass) (body body' : View α) :
-    row.view body ρ r = row.view body' ρ r ∧ ∀ a, row.view body ρ r ≠ .ran a := by
-  have hne : evalChain row.chain ρ r ≠ .pass := by
+theorem guard_denies_body_not_run {α : Type} (row : Row) (r : Request)
+    (h : ∃ g ∈ row.chain, guardVerdict g r ≠ .pass) (body body' : View α) :
+    row.view body r = row.view body' r ∧ ∀ a, row.view body r ≠ .ran a := by
+  have hne : evalChain row.chain r ≠ .pass := by
     intro hp
     obtain ⟨g, hg, hv⟩ := h
-    exact hv ((evalChain_pass_iff _ _ _).1 hp g hg)
+    exact hv ((evalChain_pass_iff _ _).1 hp g hg)
   rw [guard_chain_sound, guard_chain_sound]
-  cases hv : evalChain row.chain ρ r with
+  cases hv : evalChain row.chain r with
   | pass => exact absurd hv hne
   | stop s => exact ⟨rfl, fun a h => by cases h⟩
   | block => exact ⟨rfl, fun a h => by cases h⟩
 
 /-- and conversely the body runs when every guard passes (the guards are not a blanket refusal) -/
-theorem guards_pass_body_runs {α : Type} (row : Row) (ρ : Role) (r : Request)
-    (h : ∀ g ∈ row.chain, guardVerdict g ρ r = .pass) (body : View α) :
-    row.view body ρ r = body ρ r := by
-  rw [guard_chain_sound, (evalChain_pass_iff _ _ _).2 h]
+theorem guards_pass_body_runs {α : Type} (row : Row) (r : Request)
+    (h : ∀ g ∈ row.chain, guardVerdict g r = .pass) (body : View α) :
+    row.view body r = body r := by
+  rw [guard_chain_sound, (evalChain_pass_iff _ _).2 h]
 
 /-- the translator followed every decorator, base class and CSRF service name it met -/
 theorem translator_followed_everything : problems = [] := by decide
@@ -59,50 +59,105 @@ theorem translator_followed_everything : problems = [] := by decide
 theorem table_guarded : table.all rowGuarded = true := by decide +kernel
 
 /-- **Every mutating route is guarded.**  For every row of the generated table whose
-handler can change persistent state, every role below the documented one (anonymous
-included) is stopped by a decorator or blocked by an in-body check, whatever the request
-– in particular whatever CSRF token it carries (`csrfOk` ranges over both values) and
-whichever of its credentials it presents. -/
+handler can change persistent state and every request whose caller the documentation does
+not allow to change that state – judged by the *union* of the identities it presents: any
+session (none, guest, user, media, admin) combined with any bearer token (none, the guest
+token, any account's access or refresh token) – some decorator stops it or an in-body
+check blocks it, whatever CSRF token it carries (`csrfOk` ranges over both values). -/
 theorem mutating_routes_guarded (row : Row) (hrow : row ∈ table) (hm : row.mutates = true)
-    (ρ : Role) (r : Request) (hl : lesser ρ (required row.kind r) = true) :
-    evalChain row.chain ρ r ≠ .pass := by
+    (r : Request) (hl : mayChange row.kind r = false) :
+    evalChain row.chain r ≠ .pass := by
   have h := List.all_eq_true.1 table_guarded row hrow
   unfold rowGuarded at h
-  simp only [hm, Bool.not_true, Bool.false_or, List.all_eq_true] at h
-  have h2 := h ρ (mem_allRoles ρ) r (mem_allRequests r)
-  simp only [hl, Bool.not_true, Bool.false_or] at h2
+  simp only [hm, Bool.not_true, Bool.false_or] at h
+  have h2 := forallCreds_spec _ h r.session r.token r.tokenIsRefresh r.target
+  change (mayChange row.kind r.permissive || !(evalChain row.chain r.permissive).isPass) = true at h2
+  rw [mayChange_permissive, hl] at h2
   intro hp
-  simp [hp] at h2
+  simp [evalChain_pass_mono _ _ hp, Verdict.isPass] at h2
 
-/-- headline: on a mutating route a lesser role never reaches the state-changing part of the body -/
+/-- headline: on a mutating route a caller without the documented right never reaches the
+state-changing part of the body -/
 theorem lesser_role_never_mutates {α : Type} (row : Row) (hrow : row ∈ table)
-    (hm : row.mutates = true) (ρ : Role) (r : Request)
-    (hl : lesser ρ (required row.kind r) = true) (body : View α) :
-    ∀ a, row.view body ρ r ≠ .ran a := by
+    (hm : row.mutates = true) (r : Request)
+    (hl : mayChange row.kind r = false) (body : View α) :
+    ∀ a, row.view body r ≠ .ran a := by
   intro a
   rw [guard_chain_sound]
-  have := mutating_routes_guarded row hrow hm ρ r hl
-  cases hv : evalChain row.chain ρ r with
+  have := mutating_routes_guarded row hrow hm r hl
+  cases hv : evalChain row.chain r with
   | pass => exact absurd hv this
   | stop s => intro h; cases h
   | block => intro h; cases h
 
-/-- non-vacuity of the previous theorems: on every mutating row the documented role does
-get through on some request (so "guarded" is not "refuses everybody") -/
+/-- non-vacuity of the previous theorems: on every mutating row some documented caller does
+get through (so "guarded" is not "refuses everybody") -/
 theorem mutating_routes_admit_documented_role :
     ∀ row ∈ table, row.mutates = true →
-      ∃ r need, required row.kind r = some need ∧ evalChain row.chain need r = .pass := by
+      ∃ r, mayChange row.kind r = true ∧ evalChain row.chain r = .pass := by
   have h : table.all rowAdmits = true := by decide +kernel
   intro row hrow hm
   have h1 := List.all_eq_true.1 h row hrow
   unfold rowAdmits at h1
-  simp only [hm, Bool.not_true, Bool.false_or, List.any_eq_true] at h1
-  obtain ⟨r, _, hr⟩ := h1
-  cases hq : required row.kind r with
-  | none => simp [hq] at hr
-  | some need =>
-    refine ⟨r, need, hq, ?_⟩
-    simpa [hq] using hr
+  simp only [hm, Bool.not_true, Bool.false_or] at h1
+  obtain ⟨r, hr⟩ := existsCred_spec _ h1
+  simp only [Bool.and_eq_true] at hr
+  refine ⟨r, hr.1, ?_⟩
+  cases hv : evalChain row.chain r with
+  | pass => rfl
+  | stop s => simp [hv, Verdict.isPass] at hr
+  | block => simp [hv, Verdict.isPass] at hr
+
+/-- **The session identity is irrelevant to token guards.**  `jwt_required`,
+`jwt_login_required` and the jwt form of the self-or-admin test read the owner of the bearer
+token only: replacing the session by any other leaves their verdict unchanged … -/
+theorem token_guards_ignore_session (g : Guard) (hg : g.usesSession = false) (r : Request) (s : Ident) :
+    guardVerdict g (r.withSession s) = guardVerdict g r := by
+  cases g with
+  | loginRequired html admin perm => simp [Guard.usesSession] at hg
+  | selfOrAdmin jwt =>
+    simp only [Guard.usesSession, Bool.not_eq_false'] at hg
+    subst hg
+    rfl
+  | _ => rfl
+
+/-- … and symmetrically `login_required` and the session form of the self-or-admin test never
+look at the bearer token. -/
+theorem session_guards_ignore_token (g : Guard) (hg : g.usesToken = false) (r : Request)
+    (t : Option Ident) (rf : Bool) :
+    guardVerdict g (r.withToken t rf) = guardVerdict g r := by
+  cases g with
+  | jwtRequired a b => simp [Guard.usesToken] at hg
+  | jwtLoginRequired a b => simp [Guard.usesToken] at hg
+  | selfOrAdmin jwt =>
+    simp only [Guard.usesToken] at hg
+    subst hg
+    rfl
+  | _ => rfl
+
+/-- a chain none of whose guards consults the session gives the same verdict for every session -/
+theorem chain_ignores_session (gs : List Guard) (h : ∀ g ∈ gs, g.usesSession = false)
+    (r : Request) (s : Ident) : evalChain gs (r.withSession s) = evalChain gs r :=
+  evalChain_congr gs _ _ fun g hg => token_guards_ignore_session g (h g hg) r s
+
+/-- **JWT-protected routes authorise by the token's owner alone.**  In the generated table,
+every row whose chain asks `jwt_login_required` (the user-management API) has no guard that
+reads the session: its verdict is the same whichever session cookie accompanies the token –
+in particular a logged-in session cannot lend its authority to the guest token. -/
+theorem jwt_routes_ignore_session (row : Row) (hrow : row ∈ table) (hj : row.jwtProtected = true)
+    (r : Request) (s : Ident) :
+    evalChain row.chain (r.withSession s) = evalChain row.chain r := by
+  have hall : table.all (fun row => !row.jwtProtected || row.chain.all (fun g => !g.usesSession)) = true := by
+    decide +kernel
+  have h1 := List.all_eq_true.1 hall row hrow
+  simp only [hj, Bool.not_true, Bool.false_or, List.all_eq_true, Bool.not_eq_eq_eq_not,
+    Bool.not_true] at h1
+  exact chain_ignores_session row.chain h1 r s
+
+/-- non-vacuity: the table has JWT-protected mutating rows -/
+theorem table_has_jwt_protected_rows :
+    ∃ row ∈ table, row.jwtProtected = true ∧ row.mutates = true := by
+  decide +kernel
 
 /-- **CSRF check precedes the write.**  `CsrfProtection.check` commits the database
 session, so a handler that touches a model before its CSRF check would persist the change
